@@ -13,8 +13,12 @@ use std::io::{Error, Read};
 /// Generic parser type that composes the lexer and scanner types
 pub type ParserType<'a, R> = Parser<Lexer<Scanner<'a, R>>>;
 
+/// Maximum nesting depth of lists, dicts and grids the parser accepts
+const MAX_NESTING_DEPTH: usize = 128;
+
 pub struct Parser<Lexer> {
     pub(super) lexer: Lexer,
+    depth: usize,
 }
 
 impl<'a, R: Read> Parser<Lexer<Scanner<'a, R>>> {
@@ -23,12 +27,22 @@ impl<'a, R: Read> Parser<Lexer<Scanner<'a, R>>> {
         let mut lexer = Lexer::make(input)?;
         // Advance lexer to first token
         lexer.read()?;
-        Ok(Parser { lexer })
+        Ok(Parser { lexer, depth: 0 })
     }
 
     /// Parses a Haystack [Value](crate::val::Value) form the provided [Read](std::io::Read)
     /// stream.
     pub fn parse_value(&mut self) -> Result<Value, Error> {
+        if self.depth >= MAX_NESTING_DEPTH {
+            return self.lexer.make_generic_err("Value nesting is too deep.");
+        }
+        self.depth += 1;
+        let value = self.parse_nested_value();
+        self.depth -= 1;
+        value
+    }
+
+    fn parse_nested_value(&mut self) -> Result<Value, Error> {
         match &self.lexer.cur.value {
             Some(value) => match value {
                 // Possible Grid ver
